@@ -240,7 +240,7 @@ non-trivial = >= 2 parts with a file, or data containing a delimiter look-alike,
     }
 
     fn cases_per_worker(tier: Tier) -> u32 {
-        tier.pick(2500, 20_000)
+        tier.pick(2500, 60_000)
     }
 
     fn strategy(_tier: Tier) -> BoxedStrategy<Case> {
